@@ -14,8 +14,15 @@ def session(ctx, sid):
     for _ in range(rng.randint(10, 45)):
         r = rng.random()
         t = rng.randrange(n)
-        if rng.random() < 0.06:
-            s.repeat(t)
+        if rng.random() < 0.08:
+            s.repeat(t) if rng.random() < 0.5 else s.again(t, rng)
+            continue
+        if rng.random() < 0.03:
+            # the same hopping configuration again after a power cycle has forgotten it
+            k = rng.randint(1, 3)
+            x = "CMD SETFH %d %d %s" % (rng.randrange(64), rng.randrange(8), " ".join(str(rng.choice(FC.FREQS)) for _ in range(2 * k)))
+            for c in (x, "CMD POWERON", "CMD POWEROFF", x, "CMD POWERON"):
+                s.cmd(t, c)
             continue
         if r < 0.30:
             s.cmd(t, "CMD POWERON")
